@@ -78,6 +78,11 @@ PUMPS = [
     dict(n="stmt_expr_index", **{"from": "A", "to": "A"}, pre="a [ ( { x = ", post=" ; } ) ]"),
     dict(n="stmt_expr_ternary_mid", **{"from": "A", "to": "A"}, pre="a ? ( { x = ", post=" ; } ) : b"),
     dict(n="stmt_expr_init_first", **{"from": "A", "to": "A"}, pre="( ( int [ 2 ] ) { ( { x = ", post=" ; } ) , 1 } ) [ 0 ]"),
+    dict(n="sizeof_complit_index", **{"from": "E", "to": "E"}, pre="sizeof ( int [ ] ) { ", post=" } [ 0 ]"),
+    dict(n="complit_index", **{"from": "E", "to": "E"}, pre="( int [ ] ) { ", post=" } [ 0 ]"),
+    dict(n="complit_member", **{"from": "E", "to": "E"}, pre="( struct S ) { ", post=" } . m"),
+    dict(n="sizeof_complit", **{"from": "E", "to": "E"}, pre="sizeof ( int [ ] ) { ", post=" }"),
+    dict(n="cast_complit", **{"from": "E", "to": "E"}, pre="( int ) ( int ) { ", post=" }"),
     dict(n="complit_arg1", **{"from": "E", "to": "E"}, pre="g ( ( int ) { ", post=" } , 0 )"),
     dict(n="sizeof_arg1", **{"from": "E", "to": "E"}, pre="g ( sizeof ( ", post=" ) , 0 )"),
 ]
@@ -129,7 +134,7 @@ LISTS = {
                                "int ( * fp ) ( int ( * ) ( int ) ) ;", ";", "T * k ( T ) ;", "enum { A } ;"]),
     "designators": ("int x [ ] = { %s = 1 } ;", " ", ["[ 1 ]", ". m", "[ 1 ] . m"]),
     "qualifiers": ("%s int x ;", " ", ["const", "volatile", "const volatile"]),
-    "string_pieces": ("char * s = %s ;", " ", ["\"a\"", "L\"w\""]),
+    "string_pieces": ("char * s = %s ;", " ", ["\"a\"", "\"b c\""]),
     "case_labels": ("void f ( void ) { switch ( a ) { %s ; } }", " ", ["case 1 :", "default :", "case 1 : b ; break ;", "case ( T ) 1 :"]),
 }
 
@@ -318,15 +323,15 @@ def run(tier):
     if tier == "quick":
         keys = ones + rnd.sample(twos, min(len(twos), 140))
     else:
-        keys = ones + twos + rnd.sample(threes, min(len(threes), 600))
+        keys = ones + twos + rnd.sample(threes, min(len(threes), 300))
     sizes = [6, 12, 24] if tier == "quick" else [8, 16, 32, 64]
     jobs = [("+".join(p["n"] for p in fams[k]), [max(2, s // len(k)) * 1 for s in sizes] if False else sizes, "cycle", fams[k]) for k in keys]
-    esizes = [32, 64, 128] if tier == "quick" else [64, 128, 256, 512]
+    esizes = [32, 64, 128] if tier == "quick" else [64, 128, 256]
     jobs += [(n, esizes, "extra", n) for n in sorted(EXTRA)]
     singles = [f for f in flats if len(f["items"]) == 1]
     mixes = [f for f in flats if len(f["items"]) == 2]
-    mixes = rnd.sample(mixes, min(len(mixes), 120 if tier == "quick" else 2000))
-    fsizes = [24, 48, 96] if tier == "quick" else [32, 64, 128, 256]
+    mixes = rnd.sample(mixes, min(len(mixes), 120 if tier == "quick" else 600))
+    fsizes = [24, 48, 96] if tier == "quick" else [32, 64, 128]
     jobs += [("%s[%s]" % (f["list"], " | ".join(LISTS[f["list"]][2][i - 1] for i in f["items"])), fsizes, "flat", (f["list"], f["items"]))
              for f in singles + mixes]
     ctx.cov["rule"] = ("families = simple cycles of the pump table of Families.tla (nesting and repetition constructs and their "
